@@ -1,6 +1,16 @@
 //! Pure-arithmetic monitors: C01 (fixed-point helpers), C02 (fee splitting), C03 (price impact).
+mod c01;
+mod c02;
+mod c03;
+mod numx;
+
 use vcommon::Args;
 
-pub fn run(_args: &Args) -> Option<i32> {
-    None
+pub fn run(args: &Args) -> Option<i32> {
+    match args.id.as_str() {
+        "C01" => Some(c01::run(args)),
+        "C02" => Some(c02::run(args)),
+        "C03" => Some(c03::run(args)),
+        _ => None,
+    }
 }
